@@ -359,6 +359,10 @@ class FormulaGrader(ItemGrader, MathMixin):
         # But the answer we're testing against might only merit partial credit.
         for result in results:
             result['grade_decimal'] *= answer['grade_decimal']
+            # A comparer's partial credit on an answer that is itself worth nothing is
+            # no credit at all (full agreement, ok=True, is resolved by consolidate_results)
+            if result['ok'] == 'partial' and result['grade_decimal'] == 0:
+                result['ok'] = False
         consolidated = self.consolidate_results(results, answer, self.config['failable_evals'])
 
         return consolidated, functions_used
